@@ -407,6 +407,108 @@ class PropertyRun:
 
     STALL_S = {'quick': 420, 'thorough': 1200}
 
+    # ------------------------------------------------------------------ thorough tier: self-tests of the machinery
+    def mutant_selftest(self, budget_s=900):
+        """seeded in-memory mutants (mutants/*.json; nothing is written to /repo) of the functions under contract:
+        each must turn at least one named obligation from discharged to not-discharged.  A guard against
+        vacuous contracts and an unsound engine; survivors are reported, they are not violations of the
+        property.  A mutant whose anchor text is no longer in the source is skipped."""
+        import glob
+        from .mutate import mutated_world_function, MutantBinder
+        from .contract import verify_fragment
+        plan = self.plan
+        t0 = time.time()
+        out = {'killed': 0, 'survived': [], 'skipped_anchor_missing': 0, 'not_run_budget': 0, 'undecided_unsupported_only': []}
+        work = []
+        for path in sorted(glob.glob(os.path.join(VERIF, 'mutants', '*.json'))):
+            try:
+                spec = json.load(open(path))
+            except Exception:
+                continue
+            for m in spec.get('mutants', []):
+                if len(m) == 3:
+                    q, old, new = m
+                    key = spec.get('verify', q)
+                else:
+                    q, key, old, new = m
+                if key in plan.FUNCTIONS:
+                    work.append((spec['modules'], q, key, old, new, os.path.basename(path)))
+        # interleave the files so that a budget cut does not starve one function
+        byfile = {}
+        for w in work:
+            byfile.setdefault(w[5], []).append(w)
+        order = []
+        while any(byfile.values()):
+            for k in list(byfile):
+                if byfile[k]:
+                    order.append(byfile[k].pop(0))
+        for mods, q, key, old, new, fname in order:
+            if time.time() - t0 > budget_s:
+                out['not_run_budget'] += 1
+                continue
+            try:
+                w = World()
+                for mod in mods:
+                    importlib.import_module(mod).register(w)
+                f, node = mutated_world_function(w, q, old, new)
+            except ValueError:
+                out['skipped_anchor_missing'] += 1
+                continue
+            except Exception as e:
+                out['skipped_anchor_missing'] += 1
+                continue
+            w.bind = MutantBinder(w.bind, q, f, node)
+            c = w.contracts[key]
+            try:
+                rep = verify_fragment(w, c) if getattr(c, 'is_fragment', False) else verify_function(w, c)
+                smt.discharge(rep.obligations, tier='quick', seed=self.seed)
+            except Exception as e:
+                out['undecided_unsupported_only'].append('%s: %r (%s)' % (key, new[:60], type(e).__name__))
+                continue
+            bad = [o for o in rep.obligations if o.result != 'unsat']
+            label = '%s: %r -> %r' % (key.replace('tangermeme.', ''), old[:50], new[:50])
+            if bad:
+                out['killed'] += 1
+            elif rep.unsupported:
+                out['undecided_unsupported_only'].append(label)
+            else:
+                out['survived'].append(label)
+        out['seconds'] = round(time.time() - t0, 1)
+        self.mutants = out
+        self.log("  [self-test] mutants: %d killed, %d survived, %d only-unsupported, %d anchor-missing, %d not run (budget)  %.0fs" % (
+            out['killed'], len(out['survived']), len(out['undecided_unsupported_only']), out['skipped_anchor_missing'], out['not_run_budget'], out['seconds']))
+        for s_ in out['survived'][:6]:
+            self.log("     SURVIVED " + s_)
+        return out
+
+    def lean_recheck(self):
+        """re-compile lean/Lemmas.lean (the lemma schemas whose instances the SMT side uses) with the installed
+        Lean 4 / Mathlib; cached per content hash inside .cache"""
+        import hashlib
+        import subprocess
+        src = os.path.join(VERIF, 'lean', 'Lemmas.lean')
+        if not os.path.exists(src):
+            return None
+        h = hashlib.sha256(open(src, 'rb').read()).hexdigest()[:16]
+        stamp = os.path.join(VERIF, '.cache', 'lean-ok-' + h)
+        if os.path.exists(stamp):
+            self.lean = {'file': 'lean/Lemmas.lean', 'sha256_16': h, 'result': 'ok (cached in this checkout)'}
+            return self.lean
+        t0 = time.time()
+        try:
+            p = subprocess.run(['lean', src], cwd='/opt/veriftools/mathlib4' if os.path.isdir('/opt/veriftools/mathlib4') else VERIF,
+                               capture_output=True, text=True, timeout=1500)
+            ok = p.returncode == 0 and 'error' not in (p.stdout + p.stderr).lower()
+            res = 'ok' if ok else 'FAILED: ' + (p.stdout + p.stderr)[-400:]
+        except Exception as e:
+            ok, res = False, 'not run: %r' % (e,)
+        if ok:
+            os.makedirs(os.path.dirname(stamp), exist_ok=True)
+            open(stamp, 'w').write('ok')
+        self.lean = {'file': 'lean/Lemmas.lean', 'sha256_16': h, 'result': res, 'seconds': round(time.time() - t0, 1)}
+        self.log("  [self-test] lean lean/Lemmas.lean: %s (%.0fs)" % (res[:80], time.time() - t0))
+        return self.lean
+
     def run_bounded_worker(self, modname, budget, replay_only=False):
         """the driver runs in a child process: a crash (signal) or a call into the real code that never
         returns is observed by the parent instead of taking the checker down or hanging it"""
@@ -538,6 +640,10 @@ class PropertyRun:
             'samples': samples or ['(no deductive obligations for this property in this run)'],
             'explanation': plan.EXPLANATION,
         }
+        if getattr(self, 'mutants', None) is not None:
+            cov['mutant_selftest'] = self.mutants
+        if getattr(self, 'lean', None) is not None:
+            cov['lean_lemma_file'] = self.lean
         if self.brep is not None:
             b = self.brep.summary(self.bscope)
             cov['bounded'] = b
@@ -589,6 +695,15 @@ def run_property(pid, tier, seed):
     if plan.FUNCTIONS:
         pr.deductive()
         pr.triage()
+        if tier == 'thorough':
+            try:
+                pr.mutant_selftest()
+            except Exception:
+                pr.log("  [self-test] mutant self-test failed to run: " + traceback.format_exc()[-300:])
+            try:
+                pr.lean_recheck()
+            except Exception:
+                pass
     pr.bounded()
     if getattr(pr, 'bounded_crash', False) and not pr.violations:
         pr.finish()
